@@ -371,6 +371,10 @@ fn map_indexes(
     indexes: &[usize],
     tree_depth: usize,
 ) -> Result<BTreeMap<usize, usize>, MerkleTreeError> {
+    // a tree cannot have more than usize::MAX leaves; this also keeps 2^depth from overflowing
+    if tree_depth >= usize::BITS as usize {
+        return Err(MerkleTreeError::InvalidProof);
+    }
     let num_leaves = 2usize.pow(tree_depth as u32);
     let mut map = BTreeMap::new();
     for (i, index) in indexes.iter().cloned().enumerate() {
@@ -424,7 +428,9 @@ impl<H: Hasher> VectorCommitment<H> for MerkleTree<H> {
     }
 
     fn get_multiproof_domain_len(proof: &Self::MultiProof) -> usize {
-        1 << proof.depth
+        // a malformed proof may claim a depth which does not fit into usize; no valid domain has
+        // zero length, so such a proof never matches an expected domain
+        1usize.checked_shl(proof.depth as u32).unwrap_or(0)
     }
 
     fn open(&self, index: usize) -> Result<(H::Digest, Self::Proof), Self::Error> {
